@@ -3,7 +3,8 @@
    window size maxlen >= 1, every item / parameter type.
 
    Vocabulary (Model.v):
-     exec ml ops       the (file, object) state after running `ops` on OptimiserHistory(maxlen=ml)
+     exec fs0 ml ops   the (file, object) state after running `ops` on OptimiserHistory(maxlen=ml);
+                       fs0 = what an earlier run left on disk under the trajectory's name (or None)
      spec ml ops       the abstract trajectory: pushed list, opened?, saved params, closed?
      pushed ml ops     the items of the `Add`s that were accepted (those before the closing `Close`)
      proper ops        one life of one object: no clean_up, no replacement by a reloaded object
@@ -21,37 +22,37 @@ Notation world := (world item par).
 
 (* the trajectory reports the number pushed *)
 Theorem len_is_pushed :
-  forall ml (ops : list op), 1 <= ml -> proper ops = true ->
-  len (snd (exec ml ops)) = length (pushed ml ops) /\
-  step (exec ml ops) Len = (exec ml ops, OLen (length (pushed ml ops))).
+  forall (fs0 : option (archive item par)) ml (ops : list op), 1 <= ml -> proper ops = true ->
+  len (snd (exec fs0 ml ops)) = length (pushed ml ops) /\
+  step (exec fs0 ml ops) Len = (exec fs0 ml ops, OLen (length (pushed ml ops))).
 Proof.
-  intros ml ops Hml Hp. pose proof (@exec_inv _ _ ml ops Hml Hp) as HI.
+  intros fs0 ml ops Hml Hp. pose proof (@exec_inv _ _ fs0 ml ops Hml Hp) as HI.
   pose proof (inv_len HI) as E. split; [exact E|].
-  destruct (exec ml ops) as [fs h]. cbn in *. now rewrite E.
+  destruct (exec fs0 ml ops) as [fs h]. cbn in *. now rewrite E.
 Qed.
 
 (* the invariant: what is on disk followed by what is in memory is exactly what was pushed, each
    stored entry under its own index, and the memory window never exceeds maxlen *)
 Theorem disk_then_memory_is_pushed :
-  forall ml (ops : list op), 1 <= ml -> proper ops = true ->
+  forall (fs0 : option (archive item par)) ml (ops : list op), 1 <= ml -> proper ops = true ->
   opened (spec ml ops) = true -> aclosed (spec ml ops) = false ->
-  exists a D, fst (exec ml ops) = Some a /\ n_coords a = length D /\
+  exists a D, fst (exec fs0 ml ops) = Some a /\ n_coords a = length D /\
               (forall i, get_coords i a = nth_error D i) /\
-              D ++ mem (snd (exec ml ops)) = pushed ml ops /\
-              length (mem (snd (exec ml ops))) <= ml.
+              D ++ mem (snd (exec fs0 ml ops)) = pushed ml ops /\
+              length (mem (snd (exec fs0 ml ops))) <= ml.
 Proof. intros. now apply disk_mem_split. Qed.
 
 (* with a file, EVERY valid index (negative ones counting from the end) returns the pushed entry,
    whether still in memory or spilled to disk; before and after close; any other index is an
    IndexError *)
 Theorem getitem_spec :
-  forall ml (ops : list op), 1 <= ml -> proper ops = true -> opened (spec ml ops) = true ->
-  let P := pushed ml ops in let w := exec ml ops in
+  forall (fs0 : option (archive item par)) ml (ops : list op), 1 <= ml -> proper ops = true -> opened (spec ml ops) = true ->
+  let P := pushed ml ops in let w := exec fs0 ml ops in
   (forall i, i < length P -> exists x, nth_error P i = Some x /\ getitem w (Z.of_nat i) = Ok (Some x)) /\
   (forall k, k < length P -> getitem w (- Z.of_nat (S k)) = getitem w (Z.of_nat (length P - S k))) /\
   (forall z, (z < - Z.of_nat (length P) \/ Z.of_nat (length P) <= z)%Z -> getitem w z = Err EIndex).
 Proof.
-  intros ml ops Hml Hp Ho P w. pose proof (@exec_inv _ _ ml ops Hml Hp) as HI.
+  intros fs0 ml ops Hml Hp Ho P w. pose proof (@exec_inv _ _ fs0 ml ops Hml Hp) as HI.
   split; [|split].
   - intros i Hi. destruct (@nth_error_in_range _ P i Hi) as [x Hx]. exists x. split; [exact Hx|].
     rewrite <- Hx. now apply (getitem_opened Hml HI).
@@ -63,13 +64,13 @@ Qed.
 (* without a file the last maxlen entries are returned and the earlier ones are reported lost
    (None), as the class documents *)
 Theorem getitem_without_file :
-  forall ml (ops : list op), 1 <= ml -> proper ops = true -> opened (spec ml ops) = false ->
-  let P := pushed ml ops in let w := exec ml ops in
+  forall (fs0 : option (archive item par)) ml (ops : list op), 1 <= ml -> proper ops = true -> opened (spec ml ops) = false ->
+  let P := pushed ml ops in let w := exec fs0 ml ops in
   forall i, i < length P ->
     (length P - ml <= i -> exists x, nth_error P i = Some x /\ getitem w (Z.of_nat i) = Ok (Some x)) /\
     (i < length P - ml -> getitem w (Z.of_nat i) = Ok None).
 Proof.
-  intros ml ops Hml Hp Ho P w i Hi. pose proof (@exec_inv _ _ ml ops Hml Hp) as HI.
+  intros fs0 ml ops Hml Hp Ho P w i Hi. pose proof (@exec_inv _ _ fs0 ml ops Hml Hp) as HI.
   pose proof (getitem_nofile Hml HI Ho Hi) as E. fold (pushed ml ops) in E. fold P in E. fold w in E.
   split; intros H.
   - destruct (Nat.ltb_spec i (length P - ml)); [lia|].
@@ -79,13 +80,13 @@ Qed.
 
 (* iteration yields the pushed entries in order, reversed iteration in reverse order *)
 Theorem iter_in_order_and_reversed :
-  forall ml (ops : list op), 1 <= ml -> proper ops = true -> opened (spec ml ops) = true ->
-  step (exec ml ops) Iter = (exec ml ops, OSeq (map Some (pushed ml ops)) None) /\
-  step (exec ml ops) Reversed = (exec ml ops, OSeq (map Some (rev (pushed ml ops))) None).
+  forall (fs0 : option (archive item par)) ml (ops : list op), 1 <= ml -> proper ops = true -> opened (spec ml ops) = true ->
+  step (exec fs0 ml ops) Iter = (exec fs0 ml ops, OSeq (map Some (pushed ml ops)) None) /\
+  step (exec fs0 ml ops) Reversed = (exec fs0 ml ops, OSeq (map Some (rev (pushed ml ops))) None).
 Proof.
-  intros ml ops Hml Hp Ho. pose proof (@exec_inv _ _ ml ops Hml Hp) as HI.
+  intros fs0 ml ops Hml Hp Ho. pose proof (@exec_inv _ _ fs0 ml ops Hml Hp) as HI.
   destruct (iter_opened Hml HI Ho) as [E1 E2]. pose proof (inv_len HI) as EL.
-  destruct (exec ml ops) as [fs h]. cbn [step snd] in *. rewrite EL.
+  destruct (exec fs0 ml ops) as [fs h]. cbn [step snd] in *. rewrite EL.
   fold (pushed ml ops) in E1, E2. unfold pushed in *. rewrite E1, E2. split; reflexivity.
 Qed.
 
@@ -93,9 +94,9 @@ Qed.
    entry under every index, the same final and penultimate entries and the same optimiser
    parameters - also when nothing was pushed *)
 Theorem close_load_roundtrip :
-  forall ml (ops : list op), 1 <= ml -> proper ops = true ->
+  forall (fs0 : option (archive item par)) ml (ops : list op), 1 <= ml -> proper ops = true ->
   opened (spec ml ops) = true -> aclosed (spec ml ops) = true ->
-  let P := pushed ml ops in let w := exec ml ops in
+  let P := pushed ml ops in let w := exec fs0 ml ops in
   exists h', load_img (img_of (fst w)) = Ok h' /\
     let w' := (fst w, h') in
     len h' = length P /\
@@ -108,8 +109,8 @@ Theorem close_load_roundtrip :
     snd (step w GetParams) =
       match asaved (spec ml ops) with Some p => OParams p | None => OErr EFileNotFound end.
 Proof.
-  intros ml ops Hml Hp Ho Hc P w.
-  pose proof (@exec_inv _ _ ml ops Hml Hp) as HI. fold w in HI.
+  intros fs0 ml ops Hml Hp Ho Hc P w.
+  pose proof (@exec_inv _ _ fs0 ml ops Hml Hp) as HI. fold w in HI.
   pose proof (inv_fs HI) as Hfs. unfold opened in Ho.
   destruct (aopen (spec ml ops)) as [L|] eqn:EL; [|discriminate].
   destruct Hfs as (a & Ea & Hd & HL).
@@ -118,8 +119,8 @@ Proof.
   eexists. split; [reflexivity|]. cbn zeta. cbn [len].
   pose proof (loaded_inv Hd) as HI2.
   split; [reflexivity|]. split; [apply (loaded_contents Hd)|].
-  rewrite (@final_out _ _ 2 _ _ (le_S _ _ (le_n 1)) HI2), (@final_out _ _ ml _ _ Hml HI).
-  rewrite (@penultimate_out _ _ 2 _ _ (le_n 2) HI2), (params_out HI2), (params_out HI), EL.
+  rewrite (@final_out _ _ _ 2 _ _ (le_S _ _ (le_n 1)) HI2), (@final_out _ _ _ ml _ _ Hml HI).
+  rewrite (@penultimate_out _ _ _ 2 _ _ (le_n 2) HI2), (params_out HI2), (params_out HI), EL.
   cbn [aP aopen asaved]. fold (pushed ml ops). fold P. repeat split; reflexivity.
 Qed.
 
@@ -164,8 +165,8 @@ Qed.
    that left the memory window could not be stored under their index any more); once parameters are
    stored a second store is refused; a second close changes nothing *)
 Theorem misuse_rejected_in_sequence :
-  forall ml (ops : list op), 1 <= ml -> proper ops = true ->
-  let w := exec ml ops in
+  forall (fs0 : option (archive item par)) ml (ops : list op), 1 <= ml -> proper ops = true ->
+  let w := exec fs0 ml ops in
   (aclosed (spec ml ops) = true -> forall x, step w (Add x) = (w, OErr ERuntime)) /\
   (opened (spec ml ops) = true -> step w Open = (w, OErr ERuntime)) /\
   (ml < length (pushed ml ops) -> step w Open = (w, OErr ERuntime)) /\
@@ -173,7 +174,7 @@ Theorem misuse_rejected_in_sequence :
       forall p, step w (SaveParams p) = (w, OErr EFileExists)) /\
   (aclosed (spec ml ops) = true -> step w Close = (w, ODone)).
 Proof.
-  intros ml ops Hml Hp w. pose proof (@exec_inv _ _ ml ops Hml Hp) as HI. fold w in HI.
+  intros fs0 ml ops Hml Hp w. pose proof (@exec_inv _ _ fs0 ml ops Hml Hp) as HI. fold w in HI.
   pose proof (inv_closed HI) as Ec. pose proof (inv_fname HI) as Ef. pose proof (inv_fs HI) as Hfs.
   pose proof (inv_len HI) as El. pose proof (inv_mem HI) as Em.
   destruct (misuse_rejected w) as (M1 & M2 & M2' & M3 & _ & M5 & _).
@@ -193,10 +194,10 @@ Qed.
 
 (* the file is only ever opened before the (maxlen+1)-th add *)
 Theorem opened_means_nothing_was_lost :
-  forall ml (ops : list op), 1 <= ml -> proper ops = true ->
+  forall (fs0 : option (archive item par)) ml (ops : list op), 1 <= ml -> proper ops = true ->
   forall L, aopen (spec ml ops) = Some L -> L <= ml /\ L <= length (pushed ml ops).
 Proof.
-  intros ml ops Hml Hp L EL. pose proof (@exec_inv _ _ ml ops Hml Hp) as HI.
+  intros fs0 ml ops Hml Hp L EL. pose proof (@exec_inv _ _ fs0 ml ops Hml Hp) as HI.
   pose proof (inv_fs HI) as Hfs. rewrite EL in Hfs. destruct Hfs as (a & _ & _ & H1 & H2).
   split; assumption.
 Qed.
@@ -225,26 +226,49 @@ Proof.
           | (right; right; right; right; eexists; eexists; split; reflexivity) ].
 Qed.
 
+(* a previous archive under the same name is never read or modified before open(); once opened, the
+   archive holds exactly this life's entries (each under its own index, each name once) and this
+   life's parameters - nothing of the previous archive survives *)
+Theorem previous_archive_is_replaced :
+  forall (fs0 : option (archive item par)) ml (ops : list op), 1 <= ml -> proper ops = true ->
+  (opened (spec ml ops) = false -> fst (exec fs0 ml ops) = fs0) /\
+  (opened (spec ml ops) = true ->
+     exists a D, fst (exec fs0 ml ops) = Some a /\ has_header a = true /\ n_coords a = length D /\
+                 (forall i, get_coords i a = nth_error D i) /\ get_params a = asaved (spec ml ops) /\
+                 prefix D (pushed ml ops)).
+Proof.
+  intros fs0 ml ops Hml Hp. split.
+  - intros Ho. pose proof (@exec_inv _ _ fs0 ml ops Hml Hp) as HI. pose proof (inv_fs HI) as Hfs.
+    unfold opened in Ho. destruct (aopen (spec ml ops)); [discriminate|]. now destruct Hfs.
+  - intros Ho. destruct (@archive_of_this_life _ _ fs0 ml ops Hml Hp Ho) as (a & Ea & Hh & Hn & Hg & Hpp).
+    exists a, (disk ml (spec ml ops)). repeat split; auto.
+    unfold disk, pushed. destruct (aclosed (spec ml ops)); [apply prefix_refl|apply prefix_firstn].
+Qed.
+
 (* the process stops after ANY number of operations of a proper life (every archive update is one
    atomic commit, so these are the states between commits; an update interrupted half-way leaves a
-   file that is not a zip archive = IGarbage; no file = INone).  Then `load` either raises a
-   DOCUMENTED error (FileNotFoundError / ValueError), or returns a trajectory whose entries are a
-   PREFIX of what was pushed, with the stored parameters - never reordered, duplicated or foreign
-   entries.  If the trajectory had been closed the prefix is everything. *)
+   file that is not a zip archive = IGarbage; no file = INone).  Before open() the disk is as the
+   previous life left it (no file: FileNotFoundError).  After open() `load` returns a trajectory
+   whose entries are a PREFIX of what was pushed, with the stored parameters - never reordered,
+   duplicated or foreign entries; if the trajectory had been closed the prefix is everything. *)
 Theorem crash_prefix :
-  forall ml (ops1 ops2 : list op), 1 <= ml -> proper (ops1 ++ ops2) = true ->
-  let w1 := exec ml ops1 in
+  forall (fs0 : option (archive item par)) ml (ops1 ops2 : list op), 1 <= ml -> proper (ops1 ++ ops2) = true ->
+  let w1 := exec fs0 ml ops1 in
   load_img (@IGarbage item par) = Err EValue /\ load_img (@INone item par) = Err EFileNotFound /\
-  match load_img (img_of (fst w1)) with
-  | Err e => e = EFileNotFound /\ fst w1 = None
-  | Ok h' => exists D, contents (fst w1, h') = (map Some D, None) /\ len h' = length D /\
-                       prefix D (pushed ml (ops1 ++ ops2)) /\
-                       (aclosed (spec ml ops1) = true -> D = pushed ml ops1) /\
-                       snd (step (fst w1, h') GetParams) = snd (step w1 GetParams)
+  match aopen (spec ml ops1) with
+  | None => fst w1 = fs0 /\ (fs0 = None -> load_img (img_of (fst w1)) = Err EFileNotFound)
+  | Some _ =>
+      exists h' D, load_img (img_of (fst w1)) = Ok h' /\
+                   contents (fst w1, h') = (map Some D, None) /\ len h' = length D /\
+                   prefix D (pushed ml (ops1 ++ ops2)) /\
+                   (aclosed (spec ml ops1) = true -> D = pushed ml ops1) /\
+                   snd (step (fst w1, h') GetParams) = snd (step w1 GetParams)
   end.
 Proof.
-  intros ml ops1 ops2 Hml Hp w1. split; [reflexivity|]. split; [reflexivity|].
-  now apply crash_load.
+  intros fs0 ml ops1 ops2 Hml Hp w1. split; [reflexivity|]. split; [reflexivity|].
+  pose proof (@crash_load _ _ fs0 ml ops1 ops2 Hml Hp) as H. fold w1 in H. cbv zeta in H.
+  destruct (aopen (spec ml ops1)); [exact H|].
+  split; [exact H|]. intros ->. rewrite H. reflexivity.
 Qed.
 
 End Props.
@@ -256,31 +280,38 @@ End Props.
    them on the real class on every run. *)
 Example late_open_is_now_rejected :
   let ops : list (op nat nat) := [Add 0; Add 1; Add 2; Open; Add 3; GetItem 0; Iter] in
-  snd (run (init 2) ops) =
+  snd (run (init None 2) ops) =
     [ODone; ODone; ODone; OErr ERuntime; ODone; OItem None; OSeq [None; None; Some 2; Some 3] None] /\
-  fst (exec 2 ops) = None.
+  fst (exec None 2 ops) = None.
 Proof. repeat split. Qed.
 
 Example load_of_empty_trajectory_is_empty :
-  load_img (img_of (fst (exec 2 [@Open nat nat; Close]))) = Ok (mkHist 2 [] 0 true true) /\
-  load_img (img_of (fst (exec 2 [@Open nat nat; SaveParams 7; Add 0; Add 1]))) = Ok (mkHist 2 [] 0 true true).
+  load_img (img_of (fst (exec None 2 [@Open nat nat; Close]))) = Ok (mkHist 2 [] 0 true true) /\
+  load_img (img_of (fst (exec None 2 [@Open nat nat; SaveParams 7; Add 0; Add 1]))) = Ok (mkHist 2 [] 0 true true).
 Proof. repeat split. Qed.
 
 Example second_close_changes_nothing :
   let ops : list (op nat nat) := [Open; Add 0; Add 1; Add 2; Close; Close] in
-  fst (exec 2 ops) = Some [MHeader; MCoords 0 0; MCoords 1 1; MCoords 2 2] /\
-  exists h', load_img (img_of (fst (exec 2 ops))) = Ok h' /\ len h' = 3 /\
-             contents (fst (exec 2 ops), h') = (map Some [0; 1; 2], None).
+  fst (exec None 2 ops) = Some [MHeader; MCoords 0 0; MCoords 1 1; MCoords 2 2] /\
+  exists h', load_img (img_of (fst (exec None 2 ops))) = Ok h' /\ len h' = 3 /\
+             contents (fst (exec None 2 ops), h') = (map Some [0; 1; 2], None).
 Proof. split; [reflexivity|]. eexists. repeat split. Qed.
+
+(* an archive left by an earlier run under the same name is replaced by open() *)
+Example stale_archive_is_replaced :
+  let stale := Some [@MHeader nat nat; MParams 60; MCoords 0 50; MCoords 1 51; MCoords 2 52] in
+  fst (exec stale 2 [Add 0]) = stale /\
+  fst (exec stale 2 [Add 0; Open; Add 1; Add 2; Close]) = Some [MHeader; MCoords 0 0; MCoords 1 1; MCoords 2 2].
+Proof. split; reflexivity. Qed.
 
 (* non-vacuity: a proper life that is opened, spills, is closed, and reloads *)
 Example nonvacuous :
   let ops : list (op nat nat) := [Add 0; Open; SaveParams 9; Add 1; Add 2; Add 3; GetItem (-4); Iter; Close] in
   proper ops = true /\ opened (spec 2 ops) = true /\
   aclosed (spec 2 ops) = true /\ pushed 2 ops = [0; 1; 2; 3] /\
-  snd (run (init 2) ops) =
+  snd (run (init None 2) ops) =
     [ODone; ODone; ODone; ODone; ODone; ODone; OItem (Some 0);
      OSeq [Some 0; Some 1; Some 2; Some 3] None; ODone] /\
-  fst (exec 2 ops) =
+  fst (exec None 2 ops) =
     Some [MHeader; MParams 9; MCoords 0 0; MCoords 1 1; MCoords 2 2; MCoords 3 3].
 Proof. repeat split. Qed.
